@@ -153,8 +153,14 @@ def _value_classes(ctx, m):
         if '__ne__' in meths:
             ne = meths['__ne__']
             gn = _guard_of(ne, name)
-            if gn is None:
-                ctx.error('C19.D1', '%s.__ne__: guard not recognised' % name)
+            nb = body_wo_doc(ne)
+            o_ne = ne.args.args[1].arg if len(ne.args.args) == 2 else 'other'
+            if gn is None and len(nb) == 1 and isinstance(nb[0], ast.Return) and norm(nb[0].value) in (
+                    'not self == %s' % o_ne, 'not self.__eq__(%s)' % o_ne):
+                ctx.ob('C19.D1', '%s.__ne__ is `not (self == other)`: the complement of __eq__ for every operand'
+                       % name, True, '%s:%d' % (FD, ne.lineno))
+            elif gn is None:
+                ctx.error('C19.D1', '%s.__ne__: neither the guarded nor the plain negation of __eq__' % name)
             else:
                 o2, nret, nrest = gn
                 want_guard = {'NotImplemented': 'NotImplemented', 'False': 'True'}.get(guard_ret)
@@ -359,19 +365,35 @@ def _approx_check(ctx, m):
             if var == v1:
                 known1 |= set(classes)
         problems = []
-        for node in ast.walk(st):
+
+        def scan(node, k1, k2):
+            # short-circuit conjunctions: earlier isinstance conjuncts guard later ones
+            if isinstance(node, ast.BoolOp) and isinstance(node.op, ast.And):
+                k1, k2 = set(k1), set(k2)
+                for v in node.values:
+                    scan(v, k1, k2)
+                    for var, classes in _isinstance_facts(v):
+                        if var == v2:
+                            k2 |= set(classes)
+                        if var == v1:
+                            k1 |= set(classes)
+                return
             if isinstance(node, ast.Attribute) and isinstance(node.value, ast.Name) and node.value.id == v2:
                 need = KIND_OF_ATTR.get(node.attr)
                 if need is None:
                     problems.append(('.%s' % node.attr, 'an unknown kind'))
-                elif not (known2 & set(need)):
+                elif not (k2 & set(need)):
                     problems.append(('.%s' % node.attr, ' or '.join(need)))
             if isinstance(node, ast.BinOp):
                 names = {n.id for n in ast.walk(node) if isinstance(n, ast.Name)}
-                if v2 in names and not (known2 & set(NUMERIC)):
+                if v2 in names and not (k2 & set(NUMERIC)):
                     problems.append((norm(node), 'a number'))
-                if v1 in names and v2 in names and not (known1 & set(NUMERIC)) and (known2 & set(NUMERIC)):
+                elif v1 in names and v2 in names and not (k1 & set(NUMERIC)):
                     problems.append((norm(node), 'a number (v1)'))
+            for ch in ast.iter_child_nodes(node):
+                scan(ch, k1, k2)
+
+        scan(st, known1, known2)
         where = '%s:%d' % (FG, st.lineno)
         if problems:
             op, need = problems[0]
